@@ -67,6 +67,15 @@ type item struct{ v int }
 
 func mk(v int) *item { it := &item{}; it.v = v; return it }
 
+// mkz is mk, except that every fifth value is the zero value of *item (a nil pointer): a legitimate value
+// for every container here, which must travel through the same synchronised paths as any other
+func mkz(v int) *item {
+	if v%5 == 4 {
+		return nil
+	}
+	return mk(v)
+}
+
 var sink int
 
 func use(it *item) {
@@ -435,10 +444,15 @@ func types() []typ {
 			}
 			return &inst{ops: map[string]op{
 				"Load":        func(g, i int) { v, _ := m.Load(i % 6); use(v) },
-				"Store":       func(g, i int) { m.Store(i%6, mk(i)) },
-				"LoadOrStore": func(g, i int) { v, _ := m.LoadOrStore(i%6, mk(i)); use(v) },
+				"Store":       func(g, i int) { m.Store(i%6, mkz(i)) },
+				"LoadOrStore": func(g, i int) { v, _ := m.LoadOrStore(i%6, mkz(i)); use(v) },
 				"LoadOrStoreFunc": func(g, i int) {
-					v, _, _ := m.LoadOrStoreFunc(i%6, func() (*item, error) { return mk(i), nil })
+					v, _, _ := m.LoadOrStoreFunc(i%6, func() (*item, error) {
+						if i%11 == 7 {
+							return nil, errors.New("no value")
+						}
+						return mkz(i), nil
+					})
 					use(v)
 				},
 				"LoadAndDelete": func(g, i int) { v, _ := m.LoadAndDelete(i % 6); use(v) },
@@ -467,26 +481,33 @@ func types() []typ {
 		{name: "Pool", methods: []string{"Get", "Put"}, scale: 1, mk: func(_, _ string) *inst {
 			p := syncx.NewPool[*item](func() *item { return mk(7) })
 			return &inst{ops: map[string]op{
-				"Get": func(g, i int) { v := p.Get(); use(v); v.v = i; p.Put(v) },
-				"Put": func(g, i int) { p.Put(mk(i)) },
+				"Get": func(g, i int) {
+					v := p.Get()
+					use(v)
+					if v != nil {
+						v.v = i
+					}
+					p.Put(v)
+				},
+				"Put": func(g, i int) { p.Put(mkz(i)) },
 			}}
 		}},
 		{name: "SegmentKeysLock", methods: []string{"Lock", "RLock", "TryLock", "TryRLock"}, scale: 1, mk: func(_, _ string) *inst {
 			s := syncx.NewSegmentKeysLock(4)
-			keys := []string{"a", "b", "c"}
-			guarded := make([]item, len(keys)) // guarded[k] is protected by the lock of keys[k]
+			keys := []string{"a", "b", "c", ""} // the empty key is a key like any other
+			guarded := make([]item, len(keys))  // guarded[k] is protected by the lock of keys[k]
 			return &inst{ops: map[string]op{
-				"Lock":  func(g, i int) { k := i % 3; s.Lock(keys[k]); guarded[k].v++; s.Unlock(keys[k]) },
-				"RLock": func(g, i int) { k := i % 3; s.RLock(keys[k]); use(&guarded[k]); s.RUnlock(keys[k]) },
+				"Lock":  func(g, i int) { k := i % 4; s.Lock(keys[k]); guarded[k].v++; s.Unlock(keys[k]) },
+				"RLock": func(g, i int) { k := i % 4; s.RLock(keys[k]); use(&guarded[k]); s.RUnlock(keys[k]) },
 				"TryLock": func(g, i int) {
-					k := i % 3
+					k := i % 4
 					if s.TryLock(keys[k]) {
 						guarded[k].v++
 						s.Unlock(keys[k])
 					}
 				},
 				"TryRLock": func(g, i int) {
-					k := i % 3
+					k := i % 4
 					if s.TryRLock(keys[k]) {
 						use(&guarded[k])
 						s.RUnlock(keys[k])
